@@ -192,6 +192,10 @@ def gen_cases(tier, seed, gen, effort):
                                                                      {"type": "field_name_prefix", "prefix": "win."}, {"type": "field_name_suffix", "suffix": ".k"}]}, True),
         (R({"sel": {"fieldA": "abc"}}), {"type": "nest", "items": [{"type": "add_condition", "conditions": {"src": "abc"}},
                                                                      {"type": "replace_string", "regex": "^", "replacement": "x"}]}, True),
+        # set_field followed by add_field / remove_field, after another rule went through the same pipeline (the list is the rule's own)
+        (R({"sel": {"fieldA": "abc"}}, fields=["x"]), {"type": "nest", "items": [{"type": "set_field", "fields": ["a", "b"]}, {"type": "add_field", "field": "extra"},
+                                                                              {"type": "remove_field", "field": "a"}]}, True),
+        (R({"sel": {"fieldA": "abc"}}), {"type": "nest", "items": [{"type": "set_field", "fields": ["only.this"]}, {"type": "add_field", "field": ["e1", "e2"]}]}, True),
         # the mapped prefix occurs again later in the field name
         (R({"sel": {"win.sub.win.name": "abc", "win.win.": "v", "xwin.a": 1}, "flt": {"f|fieldref": "win.a.win.b"}}, "sel and not flt", fields=["win.win.x", "a.win.b"]),
          {"type": "field_name_prefix_mapping", "mapping": {"win.": "w_"}}, False),
